@@ -501,13 +501,11 @@ impl<'a> Gen<'a> {
             match self.rng.below(10) {
                 0..=6 => Some(vec![self.rng.below(2) as u8]),
                 7 | 8 => Some(self.rng.bytes(3)),
-                _ => {
-                    if self.rng.chance(1, 2) {
-                        Some(vec![])
-                    } else {
-                        Some(vec![7; 65])
-                    }
-                }
+                _ => match self.rng.below(3) {
+                    0 => Some(vec![]),
+                    1 => Some(vec![7; 65]),
+                    _ => Some(vec![9; 64]),
+                },
             }
         };
         let label = if self.rng.chance(1, 12) { String::new() } else { format!("label{}", slot) };
@@ -516,7 +514,7 @@ impl<'a> Gen<'a> {
             1 => Some(Target::SelfAddr),
             _ => Some(self.target_any()),
         };
-        MsgSpec::Inst { code: self.rng.below(self.n_codes as u64 + 1) as u32, slot, node: Box::new(node), funds: self.funds(), label, admin, salt }
+        MsgSpec::Inst { code: self.rng.below(self.n_codes as u64 + 3) as u32, slot, node: Box::new(node), funds: self.funds(), label, admin, salt }
     }
 
     fn sub(&mut self, depth: u32) -> Sub {
